@@ -175,7 +175,7 @@ static void outside(int op, long arg)
 	do_call(op, arg, "");
 	fwrite(out, 1, outlen, stdout);
 }
-static void gen(long seed, int nexec, int nops, int n, uint32_t b, uint32_t s)
+static void gen(long seed, int nexec, int nops, int n, uint32_t b, uint32_t s, long tmax)
 {
 	drv_srand(seed);
 	genmode = 1;
@@ -190,6 +190,7 @@ static void gen(long seed, int nexec, int nops, int n, uint32_t b, uint32_t s)
 			case 2: outside(B_KILL, 1 + drv_below(nf)); break;
 			default:
 				t += drv_below(3) == 0 ? drv_below(4) : 0;
+				if (t > tmax) t = tmax;     /* keep (horizon x scale) inside the property's 2^31 scope */
 				do_pass(t, "none");
 				break;
 			}
@@ -215,7 +216,7 @@ int main(void)
 		else if (drv_is(&c, "Run")) outside(B_RUN, drv_arg(&c, 0));
 		else if (drv_is(&c, "RunAtomic")) outside(B_RUNATOMIC, drv_arg(&c, 0));
 		else if (drv_is(&c, "Kill")) outside(B_KILL, drv_arg(&c, 0));
-		else if (drv_is(&c, "Gen")) gen(drv_arg(&c, 0), drv_arg(&c, 1), drv_arg(&c, 2), drv_arg(&c, 3), (uint32_t)drv_arg(&c, 4), (uint32_t)drv_arg(&c, 5));
+		else if (drv_is(&c, "Gen")) gen(drv_arg(&c, 0), drv_arg(&c, 1), drv_arg(&c, 2), drv_arg(&c, 3), (uint32_t)drv_arg(&c, 4), (uint32_t)drv_arg(&c, 5), drv_arg(&c, 6));
 		else { fprintf(stderr, "fibre_drv: unknown command %s\n", c.tok[0]); return 3; }
 	}
 	fflush(stdout);
